@@ -145,12 +145,22 @@ def job_key(recipe, source, tolerant):
 def db_snapshot(db):
     snap = []
     for cat in db.categories():
-        ms = [(s.macroname, id(s), repr(s)) for s in db.iter_macro_specs(categories=[cat])]
-        es = [(s.environmentname, id(s), repr(s)) for s in db.iter_environment_specs(categories=[cat])]
-        ss = [(s.specials_chars, id(s), repr(s)) for s in db.iter_specials_specs(categories=[cat])]
+        # which objects define which names, category by category (identity of the stored
+        # specification objects and their declared argument signature; not their repr, which
+        # would also show private caches)
+        def sig(s):
+            return [str(getattr(a, 'parser', a)) if isinstance(getattr(a, 'parser', a), str)
+                    else type(getattr(a, 'parser', a)).__name__
+                    for a in (getattr(s, 'arguments_spec_list', None) or [])]
+        ms = sorted((s.macroname, id(s), type(s).__name__, sig(s))
+                    for s in db.iter_macro_specs(categories=[cat]))
+        es = sorted((s.environmentname, id(s), type(s).__name__, sig(s))
+                    for s in db.iter_environment_specs(categories=[cat]))
+        ss = sorted((s.specials_chars, id(s), type(s).__name__, sig(s))
+                    for s in db.iter_specials_specs(categories=[cat]))
         snap.append((cat, ms, es, ss))
     snap.append(('categories', list(db.categories())))
-    unk = tuple((id(x), repr(x)) for x in (db.get_macro_spec('no such macro zzz'),
+    unk = tuple(type(x).__name__ for x in (db.get_macro_spec('no such macro zzz'),
                                            db.get_environment_spec('no such env zzz'),
                                            db.get_specials_spec('\x00zz')))
     return (snap, unk)
@@ -251,13 +261,14 @@ def all_jobs():
     return jobs
 
 
-def table_path():
-    d = os.path.join(VERIF, 'out')
-    os.makedirs(d, exist_ok=True)
-    return os.path.join(d, 'c09_fresh_table.json')
+# fresh-interpreter results, computed once in plan() and inherited by the forked shard workers
+# (no file: two runs at the same time must not see each other's table)
+_TABLE = {}
 
 
 def build_table():
+    if _TABLE:
+        return _TABLE
     jobs = all_jobs()
     outs = fresh.fresh_many(jobs)
     table = {}
@@ -265,9 +276,8 @@ def build_table():
         if o and o[0] == 'fresh-interpreter-failed':
             raise HarnessError('fresh interpreter failed for %r: %s' % (j, o[1]))
         table[job_key(j['recipe'], j['source'], j['tolerant'])] = o
-    with open(table_path(), 'w') as f:
-        json.dump(table, f)
-    return table
+    _TABLE.update(table)
+    return _TABLE
 
 
 def history_strategy(maxlen):
@@ -289,7 +299,7 @@ def plan(tier, seed):
 
 
 def run_shard(shard, res):
-    table = json.load(open(table_path()))
+    table = build_table()
     if shard[0] == 'orderings':
         _, k = shard
         i = 0
